@@ -296,7 +296,7 @@ def r14_inline_map(body, log, kind):
     while True:
         skip = _skip_map(body)
         mo = None
-        for m in re.finditer(r'\.map\(\|\s*(\w+)\s*\|', body):
+        for m in re.finditer(r'\.map\(\|\s*(\w+|\([\w\s,]*\))\s*\|', body):
             if not skip[m.start()]:
                 mo = m
                 break
